@@ -45,11 +45,11 @@ def link_harness(prop, cfg, variant, extra_key=""):
     key_src = "".join(open(s).read() for s in shim_srcs) + vdir + " ".join(sorted(objs.values())) + extra_key + \
         json.dumps(cfg.get("link", {}), sort_keys=True)
     key = hashlib.sha256(key_src.encode()).hexdigest()[:16]
-    bdir = os.path.join(VERIF, ".cache", "bin", "%s-%s-%s" % (prop, variant, key))
+    bdir = os.path.join(build.CACHE, "bin", "%s-%s-%s" % (prop, variant, key))
     exe = os.path.join(bdir, "harness")
     if os.path.exists(exe):
         return exe
-    for old in glob.glob(os.path.join(VERIF, ".cache", "bin", "%s-%s-*" % (prop, variant))):
+    for old in glob.glob(os.path.join(build.CACHE, "bin", "%s-%s-*" % (prop, variant))):
         shutil.rmtree(old, ignore_errors=True)
     os.makedirs(bdir, exist_ok=True)
     shim_objs = []
@@ -107,6 +107,7 @@ def main():
     ap.add_argument("--seed", type=int, default=int(os.environ.get("VERIF_SEED", DEFAULT_SEED) or DEFAULT_SEED))
     ap.add_argument("--replay")
     ap.add_argument("--keep", action="store_true")
+    ap.add_argument("--noevidence", action="store_true", help="do not rewrite evidence/ (mutation self-tests)")
     ap.add_argument("--modes", default="")
     ap.add_argument("--scale", type=float, default=1.0, help="multiply case counts (debugging aid)")
     args = ap.parse_args()
@@ -317,7 +318,7 @@ def _generic(args, cfg, prop, tier, t0, known, open_f, quarantine, run_dir, scra
         if sig in seen_sig:
             continue
         seen_sig.add(sig)
-        rdir = os.path.join(VERIF, "replays", prop)
+        rdir = os.path.join(VERIF, "replays", prop) if build.REPO == "/repo" else os.path.join(build.CACHE, "replays", prop)
         os.makedirs(rdir, exist_ok=True)
         dst = os.path.join(rdir, "%s-%s.case" % (tier, hashlib.sha256(sig.encode()).hexdigest()[:10]))
         if os.path.abspath(path) != os.path.abspath(dst):
@@ -353,9 +354,10 @@ def _generic(args, cfg, prop, tier, t0, known, open_f, quarantine, run_dir, scra
         ev["coverage"]["exhaustive_scope"] = cfg["exhaustive_scope"]
     if extra_evidence:
         extra_evidence(ev)
-    os.makedirs(os.path.join(VERIF, "evidence"), exist_ok=True)
-    with open(os.path.join(VERIF, "evidence", prop + ".json"), "w") as f:
-        json.dump(ev, f, indent=1)
+    if not args.noevidence:
+        os.makedirs(os.path.join(VERIF, "evidence"), exist_ok=True)
+        with open(os.path.join(VERIF, "evidence", prop + ".json"), "w") as f:
+            json.dump(ev, f, indent=1)
 
     for l in notes:
         print(l)
